@@ -18,6 +18,13 @@ Decides three necessary clauses over closure(Mapper::map_* of both schema versio
              an integer parameter that builds the BigInt message from it, or a BigInt message built in place) and is never the
              operand of arithmetic on the way; every conversion function builds each BigInt variant from its parameter (no
              constant fallback) and its casts are guard-discharged (never tabled).
+ (4) R-TABLE exact form of the big-integer conversions: each conversion function (integer parameter -> BigInt message, recognised by
+             signature) is evaluated over exact integers (pv.x_cast.Concrete: finite-domain partial evaluation of its MIR and of the
+             same-crate helpers / closures it calls, wrapping at every typed operation, following the switches the value determines)
+             at the boundary points of its parameter type inside the CBOR integer range (0, +-1, 2^63-1, -2^63, 2^63, 2^64-1,
+             -2^63-1, -2^64, ...): Int payload == v; BigUInt big-endian magnitude == v; BigNInt magnitude == -1 - v (CBOR tag 3 /
+             u5c convention); exactly the int64 range takes the Int form.  A construct outside the evaluator's model (unknown call,
+             loop, promoted constant) is reported as `bigint-form:<fn>:<variant>:unrecognised` (fail closed).
 Not decided: field-by-field preservation (that each value lands in the right field, list order, completeness of the lists)."""
 import json
 import os
@@ -369,8 +376,11 @@ def run(tier):
                               "at the construction sites of the Tx/Datum/BlockHeader/TxInput messages, and integrity of the coin/asset quantity path up to the total big-integer "
                               "conversion. Decided: no integer of the named content is truncated or sign-changed by an `as` cast (tabled casts are justified by a ledger bound or "
                               "concern content the property does not name), mapped hashes are the original-bytes hashes, quantities reach a conversion that represents every value. "
+                              "The big-integer conversion functions are evaluated exactly at the boundary points of the CBOR integer range: plain integer for exactly the int64 range, "
+                              "BigUInt magnitude = v, BigNInt magnitude = -1 - v. "
                               "NOT decided: field-by-field preservation (right value in the right field, list order and completeness), lossy conversions that are not `as` casts "
-                              "(try_from(..).unwrap_or, saturating/clamping calls) outside the quantity path, correctness of the byte form chosen for large integers.",
-                  rule_text="R-CAST(closure(map_*), guards | construction | tables/casts_C44.json) + R-PROV(hash sources of Tx/Datum/BlockHeader/TxInput) + R-PROV(quantity path, total conversions)",
+                              "(try_from(..).unwrap_or, saturating/clamping calls) outside the quantity path and outside the conversion functions, the byte form at points other "
+                              "than the sampled boundary points, minimality of the byte strings.",
+                  rule_text="R-CAST(closure(map_*), guards | construction | tables/casts_C44.json) + R-PROV(hash sources of Tx/Datum/BlockHeader/TxInput) + R-PROV(quantity path, total conversions) + R-TABLE(conversion functions evaluated at boundary points: Int / BigUInt / BigNInt form)",
                   trusted_base=["rustc MIR", "tables/casts_C44.json (reviewed reasons)"])
 
